@@ -117,6 +117,20 @@ static std::vector<Op> buildAlphabet(const std::string& name, Limits& L, const s
         A.push_back(opFrame("ok", "n+1", 0, L)); A.push_back(opFrame("addpoints", "0", 1, L)); A.push_back(opFrame("addanalogs", "0", 1, L));
         A.push_back(opColPoint("ok", 1, L)); A.push_back(opColAnalog("ok", 1, L));
         A.push_back(opReload());
+    } else if (name == "loaded") {  // C05 / C06 / C07 / C10: every editing call on objects LOADED from every single-deviation generated file (roots below)
+        L.maxFrames = 4; L.maxPoints = 4; L.maxChans = 4; L.noColumnsOnGaps = true; L.documentedDevsOnly = true; L.noDuplicateDeclarations = true; L.noRateEditWithData = true;
+        A.push_back(opPoint("NEWP", L)); A.push_back(opAnalog("newc", L));
+        for (auto t : {"app", "0", "n+1"}) A.push_back(opFrame("ok", t, 1, L));
+        for (auto d : {"pt_missing", "pt_renamed", "ch_extra"}) A.push_back(opFrame(d, "app", 0, L));
+        A.push_back(opFrame("sub_extra", "0", 1, L)); A.push_back(opFrame("sub_missing", "0", 1, L));
+        for (auto d : {"ok", "dup", "fewer"}) A.push_back(opColPoint(d, 1, L));
+        for (auto d : {"ok", "dup", "sub_fewer"}) A.push_back(opColAnalog(d, 1, L));
+        A.push_back(opSubmitStored(0, "n", L));
+        A.push_back(opParam("NEWG", "X", pv("i3"), "d1", false, L)); A.push_back(opParam("POINT", "X", pv("s2"), "d0", true, L)); A.push_back(opParam("EXTRA", "I22", pv("f23"), "d1", false, L));
+        A.push_back(opParamBad("NEWB", true, false)); A.push_back(opParamMandatoryBad("POINT", "RATE", "int")); A.push_back(opParamMandatoryBad("ANALOG", "USED", "string"));
+        A.push_back(opRate("POINT", 50.f, L)); A.push_back(opRate("ANALOG", 100.f, L));
+        A.push_back(opLock("POINT", true)); A.push_back(opLock("EXTRA", false));
+        A.push_back(opReload());
     } else if (name == "smoke") {
         A.push_back(opPoint("A", L)); A.push_back(opRate("POINT", 100.f)); A.push_back(opFrame("ok", "app", 0, L));
     } else { fprintf(stderr, "unknown alphabet %s\n", name.c_str()); exit(2); }
@@ -155,6 +169,11 @@ int main(int argc, char** argv) {
         if (alphabet == "build") roots = {{"events", "events=18;first=705"}, {"extra", "extra=all;descs=d127;locks=yes"}, {"str1d", "extra=str1d;ids=swapped"}, {"labels", "labels=more;alabels=fewer;points=3"}, {"noanalog", "agroup=empty;chans=0"}, {"block3", "pblock=3;zeros=1"}};
         if (alphabet == "params") roots = {{"described", "extra=all;locks=yes"}, {"sparse", "ids=sparse"}};
         if (alphabet == "lookup") roots = {{"labels", "labels=fewer;alabels=more;points=3"}, {"events", "events=2"}};
+        if (alphabet == "loaded") {   // the default file and every file that differs from it in ONE generator dimension (thorough: also the listed pairs that put an unusual parameter section under an unusual shape)
+            roots.push_back({"default", "default"});
+            for (auto& d : gen::dims(false)) for (size_t a = 1; a < d.alts.size(); ++a) { if (d.name == "points" && d.alts[a] == "255") continue; roots.push_back({d.name + "=" + d.alts[a], d.name + "=" + d.alts[a]}); }
+            if (tier == "thorough") for (auto sh : {"points=1", "chans=1", "frames=1", "points=0", "chans=0", "frames=0"}) for (auto ps : {"optparams=minimal", "optparams=rich", "agroup=empty", "labels=fewer", "labels=more", "alabels=fewer", "alabels=more", "rates=0x1", "datastart=absent", "extra=none", "locks=yes", "first=705"}) roots.push_back({std::string(sh) + ";" + ps, std::string(sh) + ";" + ps});
+        }
         std::string rdir = scratch + "/roots"; mkdir(rdir.c_str(), 0755);
         for (auto& r : roots) { gen::Content c; gen::Layout l; if (!gen::apply(gen::parseChoice(r.second), c, l)) continue; std::string b = gen::encode(c, l); std::string p = rdir + "/" + r.first + ".c3d"; FILE* f = fopen(p.c_str(), "wb"); fwrite(b.data(), 1, b.size(), f); fclose(f); E.rootOps.push_back((int)E.ops.size()); E.ops.push_back(opLoadRoot(r.first + ":" + r.second, p)); }
     }
